@@ -113,7 +113,8 @@ func runTransparency(cfg Config, args []string) int {
 		switch {
 		case a.Obs.Status != b.Obs.Status:
 			return out{fmt.Sprintf("%s: status %s vs %s", worlds[i].Name, a.Obs.Status, b.Obs.Status)}
-		case string(a.Obs.Stdout) != string(b.Obs.Stdout):
+		case sim.Unsubst(string(a.Obs.Stdout), roots[0]) != sim.Unsubst(string(b.Obs.Stdout), roots[1]):
+			// (stdout may name files: the line convergen prints for a reserved notation)
 			return out{worlds[i].Name + ": stdout differs"}
 		case ea != eb:
 			return out{worlds[i].Name + ": stderr differs"}
